@@ -1,0 +1,35 @@
+//go:build verif
+// +build verif
+
+package cache
+
+import (
+	"sync/atomic"
+)
+
+// VerifValues returns the values of all nodes the cache map currently holds (whether or not a handle is
+// outstanding). Only the verification harness uses it.
+func (r *Cache) VerifValues() []Value {
+	r.mu.RLock()
+	defer r.mu.RUnlock()
+	if r.closed {
+		return nil
+	}
+	h := (*mHead)(atomic.LoadPointer(&r.mHead))
+	var out []Value
+	for x := range h.buckets {
+		b := h.initBucket(uint32(x))
+		b.mu.Lock()
+		nodes := append([]*Node(nil), b.nodes...)
+		b.mu.Unlock()
+		for _, n := range nodes {
+			n.mu.Lock()
+			v := n.value
+			n.mu.Unlock()
+			if v != nil {
+				out = append(out, v)
+			}
+		}
+	}
+	return out
+}
